@@ -4,7 +4,7 @@
      psutil/_common.py  : open_text() (text-mode read), parse_environ_block()
      psutil/__init__.py : Process.name() (extension from cmdline),
                           Process.exe() (guess from cmdline, _exe cache)
-   transcribed from the code as it is now.  No proofs here.
+   transcribed from the code as it is now (configuration [now] below).  No proofs here.
 
    Python str values are represented by the bytes they encode to (UTF-8 +
    surrogateescape is a bijection); where the code's behaviour depends on
@@ -14,15 +14,16 @@
    multi-byte sequence and undecodable bytes are >= 0x80). *)
 From PV Require Export C12.Lib.
 
-(* Configuration of the two places where the code as written departs from the
-   property.  [cur] is the code now; [repaired] is the code with
-   notes/fixes/C12-*.diff applied. *)
+(* Two places of the anchored code were repaired after this check found them
+   breaking the property (/repo commits 46827e5 and 76627f6).  [now] is the
+   code as it is in /repo; [before_fix] is the code before those commits, kept
+   so that the refuted statements stay checkable and a revert is recognised. *)
 Record cfg := {
   nl_translate : bool;   (* open_text() without newline="": "\r\n" and "\r" read as "\n" *)
   name_chars : bool      (* Process.name(): len()/startswith on the decoded str (characters) *)
 }.
-Definition cur : cfg := {| nl_translate := true; name_chars := true |}.
-Definition repaired : cfg := {| nl_translate := false; name_chars := false |}.
+Definition now : cfg := {| nl_translate := false; name_chars := false |}.
+Definition before_fix : cfg := {| nl_translate := true; name_chars := true |}.
 
 (* ------------------------------------------------ what the process sees of the kernel *)
 (* open(path).read() of a /proc/<pid>/ file *)
